@@ -824,6 +824,120 @@ impl Family for Recover {
     }
 }
 
+
+/// one row built partly with write_col and partly with write_row, over columns that differ in
+/// width and signedness: each value must be checked and encoded against *its own* column
+/// whichever call delivers it. Every split point; plain rows (each value fits its column) and
+/// trap rows (one value fits the column it would have if the row were counted from the split,
+/// but not its own).
+pub struct MixedRows;
+impl MixedRows {
+    fn cols() -> Arc<Vec<Column>> {
+        Arc::new(vec![
+            col("a", ColumnType::MYSQL_TYPE_SHORT, ColumnFlags::empty()),
+            col("b", ColumnType::MYSQL_TYPE_SHORT, ColumnFlags::UNSIGNED_FLAG),
+            col("c", ColumnType::MYSQL_TYPE_LONGLONG, ColumnFlags::UNSIGNED_FLAG),
+            col("d", ColumnType::MYSQL_TYPE_TINY, ColumnFlags::empty()),
+        ])
+    }
+    fn good() -> Vec<(Val, BinVal)> {
+        vec![(Val::I16(-2), BinVal::Int(-2)), (Val::U16(65000), BinVal::UInt(65000)), (Val::U64((1 << 63) + 5), BinVal::UInt((1 << 63) + 5)), (Val::I8(-100), BinVal::Int(-100))]
+    }
+    /// (split, trap position or 4 for none, rows before)
+    fn case(idx: u64) -> (usize, usize, usize) {
+        let d = digits(idx, &[5, 5, 2]);
+        (d[0] as usize, d[1] as usize, d[2] as usize)
+    }
+}
+impl Family for MixedRows {
+    fn ambient(&self, idx: u64) -> u64 {
+        crate::engine::rot(idx)
+    }
+    fn name(&self) -> String {
+        "rows-built-by-write_col-then-write_row".into()
+    }
+    fn len(&self) -> u64 {
+        50
+    }
+    fn run(&self, idx: u64, st: &mut Stats) -> Result<(), Violation> {
+        let (split, trap, pre) = Self::case(idx);
+        let good = Self::good();
+        let mut vals: Vec<Val> = good.iter().map(|g| g.0.clone()).collect();
+        let mut trapped = false;
+        if trap < 4 {
+            // the value that would fit column (trap - split), delivered at position trap
+            if trap < split || split == 0 {
+                st.skipped += 1;
+                return Ok(());
+            }
+            let v = good[trap - split].0.clone();
+            let own = &Self::cols()[trap];
+            let fits = expected_cell(&v, own.coltype as u8, own.colflags.contains(ColumnFlags::UNSIGNED_FLAG)).is_some() && must_accept(&v, own.coltype as u8, own.colflags.contains(ColumnFlags::UNSIGNED_FLAG));
+            if fits {
+                st.skipped += 1;
+                return Ok(());
+            }
+            vals[trap] = v;
+            trapped = true;
+        }
+        st.nontrivial += 1;
+        st.bump("mixed_rows");
+        let cols = Self::cols();
+        let mut prog = vec![WOp::Start(cols.clone())];
+        for _ in 0..pre {
+            prog.push(WOp::WriteRow(good.iter().map(|g| g.0.clone()).collect()));
+        }
+        for v in &vals[..split] {
+            prog.push(WOp::WriteCol(v.clone()));
+        }
+        prog.push(WOp::WriteRow(vals[split..].to_vec()));
+        prog.push(WOp::Finish);
+        let conv = Conv::new(vec![ClientCmd::new(with_byte(COM_STMT_PREPARE, b"id=1 p=0")), ClientCmd::new(cmd_execute(1, 0, 1, &[])), ping()]);
+        let s = conv.stream();
+        let stream = Arc::new(s.bytes);
+        let mut sim = sim_for(&stream, vec![]);
+        sim.log_ops = false;
+        let prog = Arc::new(prog);
+        let o = run_conn(sim, ConnCfg::new(Box::new(move |_, cb| match cb {
+            Cb::Prepare(_) => Behavior::PrepReply { id: 1, params: param_cols(0), cols: param_cols(0) },
+            Cb::Execute { .. } => Behavior::Prog(prog.clone()),
+            _ => Behavior::Silent,
+        })));
+        let what = format!("{} value(s) by write_col, the remaining {} by write_row{}{}", split, 4 - split, if trapped { format!(", position {} holds {:?}", trap, vals[trap]) } else { String::new() }, if pre > 0 { ", after one complete row" } else { "" });
+        if let ConnResult::Panic(l, m) = &o.res {
+            return Err(Violation::new(panic_key(l, m), format!("{}: run_on panicked at {}: {}", what, l, m)));
+        }
+        let refused = o.calls.iter().any(|c| c.res.is_err());
+        if refused {
+            if !trapped {
+                return Err(Violation::new("fitting-row-refused", format!("{}: every value fits its own column, yet a call failed: {:?}", what, o.calls.iter().find(|c| c.res.is_err()).map(|c| c.res.clone()))));
+            }
+            st.bump("mixed_rows_trap_refused");
+            return match decode_all(delivered(&o), &conv, &s.last_seq, 2, true) {
+                Ok(_) => Ok(()),
+                Err(e) if e.contains("server output ends where") => Ok(()),
+                Err(e) => Err(Violation::new("refused-but-emitted", format!("{}: {}", what, e))),
+            };
+        }
+        if trapped {
+            return Err(Violation::new("foreign-value-accepted", format!("{}: the value cannot be represented by its own column, yet every call succeeded", what)));
+        }
+        if !o.res.is_ok() {
+            return Err(Violation::new("result-not-ok", format!("{}: run_on returned {}", what, o.res.short())));
+        }
+        let d = decode_all(delivered(&o), &conv, &s.last_seq, 3, false).map_err(|e| Violation::new("row-undecodable", format!("{}: {}", what, e)))?;
+        let want: Vec<Cell> = good.iter().map(|g| Cell::Bin(g.1.clone())).collect();
+        match &d.replies[1][..] {
+            [Unit::ResultSet { rows, end: Ok(_), .. }] if rows.len() == pre + 1 && rows.iter().all(|r| *r == want) => Ok(()),
+            other => Err(Violation::new("mixed-row-differs", format!("{}: decoded {:?}", what, other.iter().map(|u| format!("{:?}", u).chars().take(300).collect::<String>()).collect::<Vec<_>>()))),
+        }
+    }
+    fn describe(&self, idx: u64) -> J {
+        let (split, trap, pre) = Self::case(idx);
+        json!({"values_by_write_col": split, "values_by_write_row": 4 - split, "trap_position": if trap < 4 { Some(trap) } else { None }, "complete_rows_before": pre, "columns": "SHORT, SHORT UNSIGNED, BIGINT UNSIGNED, TINY"})
+    }
+}
+
 pub fn build(quick: bool) -> Check {
     let mut ns: Vec<usize> = (13..=70).collect();
     ns.extend([127, 128, 129, 255, 256, 257, 300, 511, 512, 513, 1000]);
@@ -833,12 +947,12 @@ pub fn build(quick: bool) -> Check {
     Check {
         id: "C07",
         level: "model_checking",
-        rule: format!("binary resultsets through the real run_on, decoded from the advertised column definitions by refwire and cell by cell by mysql_common's BinValue: column counts 1..{} x all 2^n NULL patterns (three rows: pattern, complement, pattern) with 12 cycling column types of different widths; column counts up to 1000 with structured patterns (none, all, every single NULL / non-NULL, alternations, prefixes/suffixes ending around every multiple of 8); NULL into NOT NULL for all patterns of <= 6 columns x 4 flag placements; the matrix of {} value sources x all 31 column types x signedness x NOT NULL; at the to_mysql_bin seam every second of 0..838:59:59 x 3 microsecond values as TIME, every calendar date of years 0..9999 as DATE, every second of a day x 3 microsecond values as DATETIME; a refused cell (NULL into NOT NULL, wrong type, out of range, invalid generic date/time) at each column followed by a replacement value. Oracle: decoded cells equal the written values, bitmap bits = NULL cells exactly, natural pairings accepted, anything accepted is exact, mismatches refused without emitting undecodable output. Non-trivial = bitmap crosses a byte boundary or a type pairing the unit tests never make.", if quick {12} else {14}, value_palette().len()),
+        rule: format!("binary resultsets through the real run_on, decoded from the advertised column definitions by refwire and cell by cell by mysql_common's BinValue: column counts 1..{} x all 2^n NULL patterns (three rows: pattern, complement, pattern) with 12 cycling column types of different widths; column counts up to 1000 with structured patterns (none, all, every single NULL / non-NULL, alternations, prefixes/suffixes ending around every multiple of 8); NULL into NOT NULL for all patterns of <= 6 columns x 4 flag placements; the matrix of {} value sources x all 31 column types x signedness x NOT NULL; at the to_mysql_bin seam every second of 0..838:59:59 x 3 microsecond values as TIME, every calendar date of years 0..9999 as DATE, every second of a day x 3 microsecond values as DATETIME; a refused cell (NULL into NOT NULL, wrong type, out of range, invalid generic date/time) at each column followed by a replacement value; rows built partly by write_col and partly by write_row over columns of different width and signedness, every split point, with values that fit a neighbouring column but not their own. Oracle: decoded cells equal the written values, bitmap bits = NULL cells exactly, natural pairings accepted, anything accepted is exact, mismatches refused without emitting undecodable output. Non-trivial = bitmap crosses a byte boundary or a type pairing the unit tests never make.", if quick {12} else {14}, value_palette().len()),
         assumptions: vec!["integer range rules are C15's; here an accepted integer must be exact".into()],
         bounds: json!({"exhaustive_null_patterns_up_to_columns": if quick {12} else {14}, "max_columns": 1000}),
         exhaustive: true,
         caps_hit: vec![],
-        families: vec![Box::new(AllPatterns { max_n: if quick { 12 } else { 14 } }), Box::new(Structured { ns }), Box::new(NotNull), Box::new(TypeMatrix { vals: value_palette() }), Box::new(TemporalBin), Box::new(Recover), Box::new(super::aftermath::Aftermath { prop: "C07" })],
-        required: vec!["aftermath_recovered", "bitmaps_crossing_a_byte", "structured_patterns", "null_into_not_null", "matrix_refused", "matrix_accepted", "binary_durations", "binary_dates", "binary_times_of_day", "recoveries"],
+        families: vec![Box::new(AllPatterns { max_n: if quick { 12 } else { 14 } }), Box::new(Structured { ns }), Box::new(NotNull), Box::new(TypeMatrix { vals: value_palette() }), Box::new(TemporalBin), Box::new(Recover), Box::new(MixedRows), Box::new(super::aftermath::Aftermath { prop: "C07" })],
+        required: vec!["mixed_rows", "mixed_rows_trap_refused", "aftermath_recovered", "bitmaps_crossing_a_byte", "structured_patterns", "null_into_not_null", "matrix_refused", "matrix_accepted", "binary_durations", "binary_dates", "binary_times_of_day", "recoveries"],
     }
 }
